@@ -287,6 +287,8 @@ func c31CSS(in string) eng.Res {
 	var dovm map[string]string
 	if a.Dark != nil {
 		dov, dovm, _ = overrideSet(a.Dov, true)
+	} else if a.Dov != "" {
+		dov, _, _ = overrideSet(a.Dov, true) // must be ignored: there is no dark theme
 	}
 	css, err := d2svg.ThemeCSS("d2-1", &a.Theme, a.Dark, ov, dov)
 	if err != nil {
@@ -427,8 +429,13 @@ func c31Source(a c31In) (string, map[string]string, map[string]string) {
 	_, ovm, ovt := overrideSet(a.Ov, false)
 	var dovm map[string]string
 	dovt := ""
-	if a.Dark != nil && a.Dov != "" {
-		_, dovm, dovt = overrideSet(a.Dov, true)
+	if a.Dov != "" {
+		// dark-theme-overrides without a dark theme are written into the configuration too: they must change nothing
+		var m map[string]string
+		_, m, dovt = overrideSet(a.Dov, true)
+		if a.Dark != nil {
+			dovm = m
+		}
 	}
 	var sb strings.Builder
 	cfg := ovt + dovt
@@ -722,6 +729,11 @@ func init() {
 							continue
 						}
 						w.Eval("render", c31In{Kind: "render", Theme: t, Ov: ov, Diagram: "shapes", Via: "opts"}.String())
+					}
+					// dark-theme-overrides without a dark theme (light and dark catalog themes as the main theme): no effect
+					for _, o := range [][2]string{{"none", "all"}, {"all", "all"}, {"B1", "N7"}} {
+						w.Eval("render", c31In{Kind: "render", Theme: t, Ov: o[0], Dov: o[1], Diagram: "shapes", Via: "opts"}.String())
+						w.Eval("css", c31In{Kind: "css", Theme: t, Ov: o[0], Dov: o[1]}.String())
 					}
 				}
 			})
